@@ -23,6 +23,7 @@ import hirq
 from callgraph import CallGraph
 
 from rules import c11_visit as V
+from rules import c11_matrix as cm
 
 FE = "dora_frontend::"
 ID_RE = re.compile(r"id_arena::Id<([\w:]+)>")
@@ -284,7 +285,7 @@ def rule_r1(chk, F, c, R):
         if kind == "pattern":
             if path in PATTERN_EXPECT:
                 if not hs:
-                    r.violation("%s:%s:pattern-not-checked" % (R.module, name),
+                    r.violation("%s:%s:pattern-not-checked" % (sorted(R.stmt_visitors)[0], name),
                                 "the pattern at %s no longer reaches the pattern converter / refutability check: a "
                                 "`let … else` whose pattern always matches (or never) is not diagnosed" % name,
                                 c.hir[next(iter(R.stmt_visitors))]["file"])
@@ -327,11 +328,12 @@ def rule_r1(chk, F, c, R):
         detail = ("visited only under: %s" % sorted(set("; ".join(h.conds) for h in hs))) if hs else (
             "the field is bound but never handed to the visitor" if bound else "the variant's payload is not bound "
             "(`_`/`..`) or the variant falls into a catch-all arm")
-        r.violation("%s:%s:not-visited" % (R.module, name),
+        vis = sorted(R.stmt_visitors if path[0].startswith(last(R.stmt_enum) + "::") else R.expr_visitors)[0]
+        r.violation("%s:%s:not-visited" % (vis, name),
                     "the visitor does not descend into %s (%s)%s: a `match` nested in that position is never handed to "
                     "the exhaustiveness check, so a non-exhaustive match there is accepted and falls through at run "
                     "time" % (name, detail, ("; " + why) if why else ""), c.hir[R.entry]["file"])
-    r.floor("expression slots", nslots["expr"], 30)
+    r.floor("expression slots", nslots["expr"], 31)
     r.floor("statement slots", nslots["stmt"], 1)
     r.floor("pattern slots", nslots["pattern"], 5)
     # ---- body kinds: sibling traversal of the type checker's entry
@@ -387,11 +389,16 @@ def rule_r1(chk, F, c, R):
                                     lambda cs: cs.callee in R.expr_visitors) or set()
         theirs = set()
         for cs in hirq.calls(body):
-            if cs.callee in callees:
+            if cs.callee in callees and cg.reachable_from([cs.callee]) & dispatchers:
                 ec = enclosing_conditions(body, lambda x, cs=cs: x.node is cs.node)
-                if ec is not None and cg.reachable_from([cs.callee]) & dispatchers:
-                    theirs = ec
-                    break
+                theirs |= set(x.lstrip("!") for x in (ec or ()))
+                # conditions the directly called per-body function tests itself (early return)
+                hb = c.hir.get(cs.callee)
+                if hb:
+                    for n in hirq.walk(hb["body"]):
+                        if n[0] == "if":
+                            theirs |= set(x.callee for x in hirq.calls(n[1]) if x.callee)
+        mine = set(x.lstrip("!") for x in mine)
         extra = sorted(x for x in mine if x not in theirs)
         r.instance("body-kind:%s:gate" % coll, sample={"exhaustiveness": sorted(mine), "typeck": sorted(theirs)})
         if extra:
@@ -442,6 +449,7 @@ def rerooted(c, R, path, root_getters, visited_colls):
                 a = hirq.strip(cs.args[0])
                 if hirq.is_node(a) and a[0] == "field" and a[2] == fname and len(a) > 3 and a[3] in owner_struct:
                     body_local = hirq.local_name(cs.recv)
+                    st_name = last(a[3])
         if body_local is None:
             continue
         # the Body is attached to an owner whose collection the entry iterates, and the owner is registered
@@ -458,10 +466,418 @@ def rerooted(c, R, path, root_getters, visited_colls):
                              for x in hirq.calls(b["body"]))
                 alloc = any(x.is_method and x.name == "alloc" and hirq.is_node(hirq.strip(x.recv))
                             and hirq.strip(x.recv)[0] == "field" and hirq.strip(x.recv)[2] in colls
-                            for pp, bb in c.hir.items() if pp.startswith(parent(p).rsplit("::expr", 1)[0])
+                            for pp, bb in c.hir.items() if pp.split("::")[:2] == p.split("::")[:2]
                             and not is_test(pp) for x in hirq.calls(bb["body"]))
                 if pushed and alloc:
                     return "ok:%s installs %s.%s as the root of a Body attached to a %s that is registered in sa.%s" % (
-                        p, last(a[3]), fname, last(owner_ty), colls[0])
+                        p, st_name, fname, last(owner_ty), colls[0])
                 return "the %s built in %s is not registered in sa.%s" % (last(owner_ty), p, colls)
     return "the field is never installed as the root expression of a separately visited body"
+
+
+# --------------------------------------------------------------------------------------------------- R3
+def guard_roles(r, c, R):
+    """marker = the unit variant of the module's Pattern enum; wildcard = the variant built by the module's
+    zero-argument Pattern constructor(s) (the filler used for witnesses and padding)"""
+    P = R.adts[R.P]
+    units = [v["name"] for v in P["variants"] if not v["fields"]]
+    if not r.anchor("module Pattern enum has exactly one payload-free variant (the guard marker)", len(units) == 1):
+        return None
+    marker = units[0]
+    fillers, wild = set(), set()
+    for f in c.items["fns"]:
+        p = f["path"]
+        if p.startswith(R.module + "::") and not is_test(p) and f["output"] == R.P and not f["inputs"] and p in c.hir:
+            for n in hirq.walk(c.hir[p]["body"]):
+                if n[0] == "def" and n[1] in ("ctor", "variant") and parent(n[2]) == R.P:
+                    wild.add(last(n[2]))
+                    fillers.add(p)
+    if not r.anchor("wildcard variant (built by the module's zero-argument Pattern constructor)", len(wild) == 1):
+        return None
+    return marker, wild.pop(), fillers
+
+
+def arm_value(body):
+    b = hirq.unmacro(body) if hirq.is_node(body) and body[0] == "macro" and body[1] != "vec!" else body
+    while hirq.is_node(b) and b[0] == "block" and b[2] is not None:
+        b = b[2]
+    return b
+
+
+def classify_row_result(body, params):
+    """what a specialisation arm does with the row: 'keeps' | 'drops' | 'diverges' | 'recurses' | 'other'"""
+    if hirq.is_panic_body(body):
+        return "diverges"
+    v = arm_value(body)
+    if hirq.is_node(v) and v[0] == "macro" and v[1] == "vec!":
+        arr = [n for n in hirq.walk(v) if n[0] == "array"]
+        elems = arr[0][1] if arr else []
+        if not elems and not any(n[0] == "local" for n in hirq.walk(v)):
+            return "drops"
+        if any(n[0] == "local" and n[1] in params for e in elems for n in hirq.walk(e)):
+            return "keeps"
+        return "other"
+    if hirq.is_node(v) and v[0] == "call" and (hirq.def_path(v[2]) or "").startswith("alloc::vec::Vec") and \
+            last(hirq.def_path(v[2])) == "new" and not v[3]:
+        return "drops"
+    if hirq.is_node(v) and v[0] in ("call", "mcall"):
+        return "recurses"
+    return "other"
+
+
+def rule_r3(chk, c, R, M):
+    r = chk.rule("C11.R3", "guards are marked and never cover: the guard marker is pushed exactly on the "
+                           "`arm.cond.is_some()` edge (the wildcard filler on the other), the guard column exists iff any "
+                           "arm of the match has a guard; in every row-specialisation function (where a wildcard head "
+                           "keeps the row) the marker drops the row or diverges and never shares the wildcard's arm")
+    g = guard_roles(r, c, R)
+    if g is None:
+        return
+    marker, wildcard, fillers = g
+    cm.rule_r3a(r, c, R, M, marker, wildcard, fillers)
+    # (b) every match over the module's Pattern enum
+    nmatch = nspec = 0
+    reach_from = {}
+    for p, b in sorted(c.hir.items()):
+        if is_test(p) or not (p.startswith(R.module + "::") or ("<" in p and R.module + "::" in p)):
+            continue
+        base = p.split("::{closure")[0]
+        params = set()
+        hb = c.hir.get(base)
+        if hb:
+            params = set(pp[0][1] for pp in hb["params"] if hirq.is_node(pp[0]) and pp[0][0] == "pbind")
+        if "{closure" in p:
+            continue
+        for n in hirq.walk(b["body"]):
+            if n[0] != "match":
+                continue
+            arms = hirq.match_arms(n)
+            named = set(last(d) for (pat, gd, body) in arms for d in hirq.pat_paths(pat) if parent(d) == R.P)
+            if wildcard not in named and marker not in named:
+                continue
+            nmatch += 1
+            wa = [(pat, gd, body) for (pat, gd, body) in arms if any(
+                parent(d) == R.P and last(d) == wildcard for d in hirq.pat_paths(pat))]
+            ga = [(pat, gd, body) for (pat, gd, body) in arms if any(
+                parent(d) == R.P and last(d) == marker for d in hirq.pat_paths(pat))]
+            catch = [(pat, gd, body) for (pat, gd, body) in arms if hirq.pat_is_wild(pat)]
+            if not ga:
+                ga = catch            # the marker falls into the catch-all arm
+            wkind = sorted(set(classify_row_result(body, params) for (_p, _g, body) in wa)) or ["-"]
+            gkind = sorted(set(classify_row_result(body, params) for (_p, _g, body) in ga)) or ["unmatched"]
+            shared = any(x[2] is y[2] for x in wa for y in ga)
+            spec = "keeps" in wkind
+            r.instance("%s:match-on-Pattern" % p, sample={"fn": p, "wildcard_arm": wkind, "marker_arm": gkind,
+                                                          "shared_arm": shared, "row_specialisation": spec})
+            if not spec:
+                continue
+            nspec += 1
+            where = "%s:%d" % (b["file"], b["line"])
+            if shared:
+                r.violation("%s:marker-shares-wildcard-arm" % p,
+                            "in this row-specialisation function the %s marker is matched by the same arm as the %s "
+                            "wildcard: rows of guarded arms survive specialisation like unguarded catch-alls, so guarded "
+                            "arms count as covering (a non-exhaustive match is accepted) and hide later arms" % (
+                                marker, wildcard), where)
+            elif any(k not in ("drops", "diverges") for k in gkind):
+                r.violation("%s:marker-keeps-row" % p,
+                            "in this row-specialisation function a row whose head is the %s marker is not dropped "
+                            "(arm: %s): guarded arms count as covering" % (marker, gkind), where)
+    r.floor("matches over the module's Pattern enum", nmatch, 9)
+    r.floor("row-specialisation functions", nspec, 3)
+    # both directions go through a specialisation function that drops marker rows
+    F = getattr(M, "F", None)
+    U = getattr(M, "U", None)
+    if F is not None and U is not None:
+        cg = M.cg
+        droppers = set()
+        for p, b in c.hir.items():
+            if is_test(p) or not p.startswith(R.module + "::") or "{closure" in p:
+                continue
+            hbp = set(pp[0][1] for pp in b["params"] if hirq.is_node(pp[0]) and pp[0][0] == "pbind")
+            for n in hirq.walk(b["body"]):
+                if n[0] == "match":
+                    for (pat, gd, body) in n[2]:
+                        if any(parent(d) == R.P and last(d) == marker for d in hirq.pat_paths(pat)) and \
+                                classify_row_result(body, hbp) == "drops":
+                            droppers.add(p)
+        for role, root in (("exhaustiveness", cm.cname(F)), ("usefulness", U.name)):
+            reach = cg.reachable_from([root])
+            r.instance("%s-direction-drops-guarded-rows" % role, sample={"root": root, "droppers": sorted(
+                d for d in droppers if d in reach)})
+            if not (droppers & reach):
+                r.violation("%s:%s-never-drops-guarded-rows" % (root, role),
+                            "no function reachable from %s removes rows whose head is the %s marker: in the %s "
+                            "direction guarded arms are treated like unguarded ones" % (last(root), marker, role),
+                            c.hir[R.cm]["file"])
+
+
+# --------------------------------------------------------------------------------------------------- R5
+UNWRAPS = {"expect", "unwrap", "unwrap_or", "unwrap_or_default", "clone", "cloned", "copied", "to_usize", "into"}
+
+
+class Sources:
+    """where the value of an expression comes from inside one function body (HIR, flow-insensitive)"""
+
+    def __init__(self, body):
+        self.body = body
+        self.bind = {}       # local -> [source exprs]
+        self.mutated = set()
+        self._collect(body)
+
+    def _bindpat(self, pat, src):
+        if not hirq.is_node(pat):
+            return
+        if pat[0] == "pbind":
+            self.bind.setdefault(pat[1], []).append(src)
+            if pat[2] is not None:
+                self._bindpat(pat[2], src)
+        elif pat[0] in ("pts", "ptuple", "por"):
+            for q in (pat[2] if pat[0] == "pts" else pat[1]):
+                self._bindpat(q, ("destructured", src))
+        elif pat[0] == "pstruct":
+            for (_f, q) in pat[2]:
+                self._bindpat(q, ("destructured", src))
+        elif pat[0] == "pref":
+            self._bindpat(pat[1], src)
+
+    def _collect(self, e):
+        for n in hirq.walk(e):
+            if n[0] == "let" and n[2] is not None:
+                self._bindpat(n[1], n[2])
+            elif n[0] == "letx":
+                self._bindpat(n[1], ("destructured", n[2]))
+            elif n[0] == "match":
+                for (pat, g, body) in n[2]:
+                    self._bindpat(pat, ("destructured", n[1]))
+            elif n[0] == "assignop" or n[0] == "assign":
+                nm = hirq.local_name(n[2] if n[0] == "assignop" else n[1])
+                if nm:
+                    self.mutated.add(nm)
+
+    def of(self, e, depth=0):
+        """set of ('call', callee, node) | ('lit', v) | ('counter', name) | ('param', name) | ('other', text)"""
+        if isinstance(e, tuple) and e[0] == "destructured":
+            return self.of(e[1], depth)
+        e = hirq.unmacro(e)
+        if not hirq.is_node(e) or depth > 12:
+            return {("other", str(e)[:40])}
+        k = e[0]
+        if k == "local":
+            if e[1] in self.mutated:
+                return {("counter", e[1])}
+            if e[1] not in self.bind:
+                return {("param", e[1])}
+            out = set()
+            for s in self.bind[e[1]]:
+                out |= self.of(s, depth + 1)
+            return out
+        if k == "lit":
+            return {("lit", e[2])}
+        if k == "block":
+            return self.of(e[2], depth + 1) if e[2] is not None else {("other", "()")}
+        if k == "if":
+            out = self.of(e[2], depth + 1)
+            if e[3] is not None:
+                out |= self.of(e[3], depth + 1)
+            return out
+        if k == "match":
+            out = set()
+            for (pat, g, body) in e[2]:
+                if not V.diverges(body):
+                    out |= self.of(body, depth + 1)
+            return out
+        if k in ("cast", "addr"):
+            return self.of(e[1] if k == "cast" else e[2], depth + 1)
+        if k == "un" and e[1] == "Deref":
+            return self.of(e[2], depth + 1)
+        if k == "mcall":
+            if e[3] in UNWRAPS:
+                return self.of(e[4], depth + 1)
+            return {("call", e[2] or e[3], id(e))}
+        if k == "call":
+            d = hirq.def_path(e[2])
+            if d in V.OPTION_PATHS and e[3]:
+                return self.of(e[3][0], depth + 1)
+            return {("call", d or "?", id(e))}
+        return {("other", hirq.render(e))}
+
+
+def find_node(body, ident):
+    for n in hirq.walk(body):
+        if id(n) == ident:
+            return n
+    return None
+
+
+def rule_r5(chk, c, R):
+    r = chk.rule("C11.R5", "constructor totals and arities come from the definition: ConstructorId::total is derived "
+                           "from the enum definition's variant list for enums and is the constant 2/1 for Bool/product "
+                           "types; sub-pattern vectors are sized from the definition's field list / the tuple type; the "
+                           "slot of a converted sub-pattern comes from a lookup (type checker's field index, field "
+                           "name), never from a counter local to the conversion")
+    # ---- total(): the function of the module called on the signature's constructor whose result bounds `0..total`
+    Fdef = None
+    for p in R.mod_fns:
+        f = R.fns.get(p)
+        if f and f["output"] == "usize" and f.get("self_ty") and len(f["inputs"]) == 2 and \
+                f["inputs"][1].endswith("sema::Sema") and f["inputs"][0].lstrip("&") in R.adts:
+            Fdef = p
+    if r.anchor("constructor-count function (fn(&ConstructorId, &Sema) -> usize)", Fdef):
+        cid = R.fns[Fdef]["inputs"][0].lstrip("&")
+        A = R.adts[cid]
+        b = c.hir[Fdef]
+        m = next((n for n in hirq.walk(b["body"]) if n[0] == "match"), None)
+        if r.anchor("match over the constructor id in %s" % last(Fdef), m):
+            # Bool role: the constructor-id variant created where a boolean literal pattern is discovered
+            bool_variants = set()
+            for p in R.mod_fns:
+                for n in hirq.walk(c.hir[p]["body"]):
+                    if n[0] == "match":
+                        for (pat, g, body) in n[2]:
+                            if any(last(d) == "Bool" and parent(d) != cid and parent(d).startswith(R.module)
+                                   for d in hirq.pat_paths(pat)):
+                                for x in hirq.walk(body):
+                                    if x[0] == "def" and x[1] in ("ctor", "variant") and parent(x[2]) == cid:
+                                        bool_variants.add(last(x[2]))
+            for v in A["variants"]:
+                tys = " ".join(f["ty"] for f in v["fields"])
+                is_enum = "EnumDefinition" in tys
+                arms = [(pat, g, body) for (pat, g, body) in m[2]
+                        if any(parent(d) == cid and last(d) == v["name"] for d in hirq.pat_paths(pat))
+                        or hirq.pat_is_wild(pat)]
+                key = "%s:%s" % (Fdef, v["name"])
+                if not arms:
+                    r.violation(key + ":no-arm", "no arm for constructor kind %s" % v["name"], b["file"])
+                    continue
+                pat, g, body = arms[0]
+                val = arm_value(body)
+                k = hirq.lit_int(val)
+                how = "constant %s" % k if k is not None else hirq.render(val)
+                r.instance(key, sample={"variant": v["name"], "payload": tys, "total": how})
+                where = "%s:%d" % (b["file"], b["line"])
+                if is_enum:
+                    bound = set()
+                    for sub in (pat[1] if pat[0] == "por" else [pat]):
+                        if sub[0] == "pts":
+                            bound |= set(q[1] for q in sub[2] if hirq.is_node(q) and q[0] == "pbind")
+                    lens = [n for n in hirq.walk(val) if n[0] == "mcall" and n[3] == "len"]
+                    ok = False
+                    for ln in lens:
+                        getters = [n for n in hirq.walk(ln[4]) if n[0] == "mcall" and n[2] and n[2].endswith(
+                            "sema::Sema::enum_") and any(x[0] == "local" and x[1] in bound for a in n[5]
+                                                         for x in hirq.walk(a))]
+                        acc = [n for n in hirq.walk(ln[4]) if n[0] == "mcall" and n[2] and "EnumDefinition::" in n[2]]
+                        if getters and acc:
+                            # the accessor reads the variant list of the definition
+                            ab = c.hir.get(acc[0][2])
+                            flds = [n[2] for n in hirq.walk(ab["body"]) if n[0] == "field"] if ab else []
+                            ed = R.adts.get(parent(acc[0][2]))
+                            vt = [f["ty"] for f in ed["variants"][0]["fields"] if f["name"] in flds] if ed else []
+                            if any("VariantDefinition" in t for t in vt):
+                                ok = True
+                    if k is not None or not ok:
+                        r.violation(key + ":total-not-from-definition",
+                                    "the number of constructors of an enum is %s, not the length of the enum "
+                                    "definition's variant list: with a wrong total a match that names fewer variants "
+                                    "than the enum has is taken for complete (accepted, falls through) or a complete "
+                                    "one is rejected" % how, where)
+                else:
+                    want = 2 if v["name"] in bool_variants else 1
+                    if k != want:
+                        r.violation(key + ":total-constant",
+                                    "constructor kind %s has %s constructors (%s) but total() yields %s" % (
+                                        v["name"], want, "true/false" if want == 2 else "a product type has exactly "
+                                        "one", how), where)
+            r.floor("constructor kinds", len(A["variants"]), 5)
+    # ---- conversion: vectors sized from the definition, slots from a lookup
+    nstore = nsize = 0
+    pat_mod = parent(R.pat_enum)
+    for p in R.mod_fns:
+        b = c.hir[p]
+        S = None
+        for n in hirq.walk(b["body"]):
+            if n[0] != "assign":
+                continue
+            lhs = hirq.unmacro(n[1])
+            if not (hirq.is_node(lhs) and lhs[0] == "index"):
+                continue
+            S = S or Sources(b["body"])
+            # the stored value is a converted pattern (directly, or a local that holds one)
+            if not any(cs.callee in R.converters for cs in hirq.calls(n[2])) and not any(
+                    src[0] == "call" and src[1] in R.converters for x in hirq.walk(n[2]) if x[0] == "local"
+                    for src in S.of(x)):
+                continue
+            S = S or Sources(b["body"])
+            nstore += 1
+            vec = hirq.local_name(lhs[1])
+            idx_src = S.of(lhs[2])
+            desc = sorted(set((s[0], last(s[1]) if s[0] == "call" else s[1]) for s in idx_src))
+            r.instance("%s:slot-index@%s" % (p, vec), sample={"fn": p, "vector": vec, "index_sources": str(desc)})
+            where = "%s:%d" % (b["file"], b["line"])
+            for s in idx_src:
+                if s[0] == "counter":
+                    r.violation("%s:subpattern-index-from-local-counter" % p,
+                                "the slot a converted sub-pattern is stored in is taken from the local counter `%s` "
+                                "(incremented per sub-pattern) instead of the field index the type checker resolved "
+                                "for it: with `..` before a positional sub-pattern (`C(.., p)`) the pattern is checked "
+                                "against the wrong field, so a non-exhaustive match is accepted (or an exhaustive one "
+                                "rejected)" % s[1], where)
+                elif s[0] != "call":
+                    r.violation("%s:subpattern-index-not-from-lookup" % p,
+                                "the slot index of a converted sub-pattern is %s, not the result of a lookup" % (s,),
+                                where)
+            # size of the vector
+            for src in S.bind.get(vec, []):
+                fe = [x for x in hirq.walk(src) if x[0] == "call" and (hirq.def_path(x[2]) or "").endswith(
+                    "vec::from_elem")] if not isinstance(src, tuple) else []
+                for x in fe:
+                    nsize += 1
+                    ssrc = S.of(x[3][1])
+                    bad = []
+                    for q in ssrc:
+                        if q[0] == "lit" and q[1] == 0:
+                            continue
+                        node = find_node(b["body"], q[2]) if q[0] == "call" else None
+                        if q[0] == "call" and last(q[1]) == "len" and node is not None and not any(
+                                y[0] == "field" and len(y) > 3 and y[3].startswith(pat_mod + "::")
+                                for y in hirq.walk(node)):
+                            continue
+                        bad.append(q)
+                    r.instance("%s:vector-size@%s" % (p, vec), sample={"fn": p, "sources": str(sorted(
+                        (q[0], last(str(q[1]))) for q in ssrc))})
+                    if bad:
+                        r.violation("%s:subpattern-vector-not-sized-from-definition" % p,
+                                    "the vector of sub-patterns is sized by %s instead of the number of fields of the "
+                                    "definition / the arity of the tuple type: fields the pattern does not mention are "
+                                    "not padded with wildcards and columns go out of step" % (
+                                        [(q[0], last(str(q[1]))) for q in bad],), where)
+    r.floor("sub-pattern slot stores", nstore, 2)
+    r.floor("sub-pattern vectors", nsize, 2)
+
+
+def run(chk, F):
+    c = F.crate("dora_frontend")
+    r0 = chk.rule("C11.R0", "the functions and types of the exhaustiveness pass are located by role")
+    R = Roles(r0, c)
+    if not R.ok:
+        return
+    r0.instance("roles", sample={"per_match": R.cm, "entry": R.entry, "expr_visitors": sorted(R.expr_visitors),
+                                 "stmt_visitors": sorted(R.stmt_visitors), "converters": sorted(R.converters),
+                                 "pattern_enum": R.P})
+    try:
+        rule_r1(chk, F, c, R)
+        M = cm.Match(c, R)
+        M.cg = CallGraph(F, libs=["dora_frontend"], bins=[])
+        cm.rule_r4(chk, c, R, M)
+        cm.rule_r2(chk, c, R, M)
+        rule_r3(chk, c, R, M)
+        rule_r5(chk, c, R)
+    except (Uninterpretable, cm.Unint) as e:
+        # a construct the rules cannot interpret is an analysis failure (exit 2), never a violation
+        raise factsmod.AnalysisError("C11", "cannot interpret: %s" % e)
+    chk.assumptions += [
+        "partial claim: decides the wiring around the usefulness algorithm (every match reached, every arm in the "
+        "matrix, guards marked and non-covering, verdict reported as an error, constructor totals/arity taken from the "
+        "definitions); the exactness of the recursive matrix procedure itself is value-level and not decided",
+    ]
